@@ -21,3 +21,21 @@ Example C19_nonvacuous :
 Proof. reflexivity. Qed.
 
 Print Assumptions C19_holds.
+
+(* The same when the file system may refuse the data of a save (no space left), or an update fails earlier: what `show` returns is the
+   record of the most recent update that REPORTED success (unless a delete came after it) - a save whose data was refused reports
+   failure and changes nothing.  [run_save atomic] / [last_reported]: Model/CheckpointSave.v. *)
+From MR Require Import Model.CheckpointSave Proofs.CheckpointSaveProof.
+Definition C19_save_statement (cp : Type) (run : list (CheckpointSave.op cp) -> file cp -> file cp)
+    (reported : list (CheckpointSave.op cp) -> file cp -> option cp -> option cp) : Prop :=
+  forall ops, CheckpointSave.show cp (run ops Absent) = reported ops Absent None.
+
+Theorem C19_save_holds : forall cp, C19_save_statement cp (CheckpointSave.run cp true) (last_reported cp true).
+Proof. intros cp ops. apply C19_save. Qed.
+
+Example C19_save_nonvacuous :
+  CheckpointSave.show nat (CheckpointSave.run nat true [CheckpointSave.Update 1 Written; CheckpointSave.Update 2 WriteFails; CheckpointSave.Show] Absent) = Some 1 /\
+  last_reported nat true [CheckpointSave.Update 1 Written; CheckpointSave.Update 2 WriteFails; CheckpointSave.Show] Absent None = Some 1.
+Proof. split; reflexivity. Qed.
+
+Print Assumptions C19_save_holds.
